@@ -17,7 +17,9 @@ import (
 )
 
 // Create a directory with savepoint files based on the provided checkpoint.
-func CreateSavepointArtifact(fs locations.StorageLocation, savepointsPath string, checkpointURI string, snapshot *jobSnapshot) (string, error) {
+// checkpointData is the content of the job checkpoint file that was written for
+// the snapshot.
+func CreateSavepointArtifact(fs locations.StorageLocation, savepointsPath string, checkpointData []byte, snapshot *jobSnapshot) (string, error) {
 	// Read the checkpoint data of every operator checkpoint and copy the
 	// referenced files into a savepoint directory.
 	for _, opCkpt := range snapshot.operatorCheckpoints {
@@ -59,10 +61,13 @@ func CreateSavepointArtifact(fs locations.StorageLocation, savepointsPath string
 		}
 	}
 
-	// Copy the job checkpoint file to a job savepoint file.
+	// Write the job savepoint file last: its presence marks the savepoint as
+	// complete. The job checkpoint file itself may be gone by now (it is removed
+	// as obsolete once the next checkpoint is published), so write its content
+	// instead of copying the file.
 	savepointDestination := filepath.Join(savepointsPath, pathSegment(snapshot.id), "job.savepoint")
-	if err := fs.Copy(checkpointURI, savepointDestination); err != nil {
-		return "", fmt.Errorf("failed copying checkpoint to savepoint storage: %v", err)
+	if _, err := fs.Write(savepointDestination, bytes.NewReader(checkpointData)); err != nil {
+		return "", fmt.Errorf("failed writing checkpoint to savepoint storage: %v", err)
 	}
 
 	return savepointDestination, nil
